@@ -92,12 +92,12 @@ CLAIMED.update({
 })
 CLAIMED.update({
     'C01': ("Rocq invariant by induction over operation histories of the executable pool machine + differential correspondence on random histories",
-            "PARTIAL w.r.t. drop accounting. Proved: every operation of the ~90-operation history machine (constructors, conversions, order/shape changes, swaps, overwrite, maps, elementwise/scalar/product "
+            "PARTIAL w.r.t. drop accounting. Proved: every operation of the ~90-operation history machine (constructors, conversions, every macro arm, order/shape changes, swaps, overwrite, maps, elementwise/scalar/product "
             "families, all iterators, parallel helpers) keeps every matrix coherent (major*minor = stored elements within usize/isize bounds), hence every reachable state of any history is coherent; "
             "in a coherent matrix every in-bounds (row,col) resolves to its own distinct live element. The machine is run operation by operation against the crate on random histories over the whole public "
             "alphabet with four element types, with an independent coherence probe and a drop/clone ledger inside the harness.",
             TB + " Drop/clone accounting is observed (ledger: live elements = sum of sizes after every operation, no double drop, nothing live at the end), not proved; "
-            "stated for every element size incl. zero-sized types (es >= 0); for zero-sized types inputs with more than usize::MAX elements in total are excluded (Vec::extend panics there, which the model does not reproduce); macro arms excluded from the theorem (covered by correspondence).", "DESIGN §7 C01"),
+            "stated for every element size incl. zero-sized types (es >= 0); for zero-sized types inputs with more than usize::MAX elements in total are excluded (Vec::extend panics there, which the model does not reproduce).", "DESIGN §7 C01"),
 })
 CLAIMED.update({
     'C02': ("Rocq theorems over a free-monad fault model (snapshots at every caller-code call) + exhaustive fault enumeration against the crate",
